@@ -88,7 +88,7 @@ class EngineC13(EngineC14):
                     out.see("nontrivial", stable_hash(workload, step, j)[:16])
                 prev_sets.append(want)
                 if len(got_list) != len(got):
-                    V.append(Violation("C13", "text-model", "duplicate-attribute", "", {"got": got_list, "source": src[:200]}, step))
+                    out.count("duplicate_attribute_in_list")       # the statement speaks of the *set*: recorded, not judged
                 if got != want:
                     d = sorted(["+" + x.replace(P, "") for x in got - want] + ["-" + x.replace(P, "") for x in want - got])
                     V.append(Violation("C13", "text-model", "attrs", ",".join(d),
